@@ -1485,6 +1485,8 @@ impl RaftLogManager {
     /// listing it was saved; adopting its records would put the log out of step with its index.
     fn create_new_log_actor(base_path: &str, log_range: &LogRange) -> Addr<RaftLogActor> {
         let path = Self::get_log_path(base_path, log_range);
+        #[cfg(rnacos_verif)]
+        crate::verif_hook::unlink_sync(&path);
         std::fs::remove_file(path).ok();
         Self::create_log_actor(base_path, log_range)
     }
